@@ -469,6 +469,13 @@ void Router::processActions(void)
     m_transaction_start_time = clock();
     m_abort_transaction = false;
 
+    // Changes made while the actions are processed (endpoint updates for
+    // connectors attached to moved shapes, pins freed with their shape)
+    // must be queued even when transactions are off, rather than
+    // processed recursively from here.
+    const bool consolidateActions = m_consolidate_actions;
+    m_consolidate_actions = true;
+
     std::list<unsigned int> deletedObstacles;
     actionList.sort();
     ActionInfoList::iterator curr;
@@ -655,6 +662,8 @@ void Router::processActions(void)
     }
     // Clear the actionList.
     actionList.clear();
+
+    m_consolidate_actions = consolidateActions;
 }
 
 bool Router::processTransaction(void)
